@@ -44,6 +44,11 @@ CHECKS = {
    text="For each operation script (sessions with immediate / close-time index persistence, explicit commits, file rollover, two-session layouts, time-range deletes, GC passes incl. after reopen, back-filled files, channel create/rename/delete, reopen) the script is executed once per crash point k in [0, #mutating FS calls) and per torn variant (1, m/2, m-1, 26, 52 bytes) of every write; only the first k mutating calls (create, mkdir, write, write-at, truncate, rename, remove) reach the image. Each image is opened with cesium.Open and every channel is read back: Open must succeed and each channel must hold exactly its content after some operation between the last durably completed one and the one in flight.",
    note="process-crash model stated by the property (completed FS calls survive; no fsync); in-memory xfs.MemFS; go1.26.8 toolchain; the order of mutations inside one commit follows Go map iteration, so each crash index is taken in the run's own order and repeated (6x quick / 24x thorough); three recorded known findings (interrupted channel creation, in-place index rewrite, GC file swap) are identified by root cause from the mutation log.",
    design="3/C02"),
+ "C05": dict(level="model_checking", engine="seqx",
+   technique="explicit-state BFS over the real control.Controller (exclusive and shared) and over cesium writers, against a (authority desc, open order asc) reference; transfers folded into a reconstructed holder",
+   text="Every sequence up to the depth bound (fixpoint for 2 subjects) of open(subject, authority in {0,1,255}, time range joining or creating one of two regions, optional error-on-unauthorized) / set-authority / release on the real control.Controller in exclusive and shared mode: after every step Authorize() of every live gate, LeadingState, the returned Transfer (exactly one iff the holder or its authority changed, naming previous and next holder) and the fold of all reported transfers must agree with the model holder (highest authority, ties to the earliest open). At engine level the same scripts through cesium writers on one channel group: the authorised flag of every Write and the subsequent Read must agree with the model (unauthorised writes have no effect).",
+   note="sequential histories (the concurrent interleavings of these calls are explored by the schedx part once enabled; until then stated as not covered); opens that would bridge two regions are outside the alphabet; go1.26.8 toolchain.",
+   design="3/C05"),
 }
 NOT_YET = {}
 props = [json.loads(l) for l in open(os.path.join(HERE, "properties.jsonl"))]
